@@ -182,33 +182,36 @@ theorem ext_upolyAdditive_define {q p n : Nat} {g : List Nat} (hq : q < 2 ^ 64)
 
 /-! ### the assembled statement
 
-  `C15_full` of `Props/C15.lean` with the bounds it lacks — cardinality `q < 2^64` (the `Define`
-  lemmas of C03/C01 are stated for machine-word cardinalities), at most `2^63` coefficients of a
-  univariate polynomial (`strconv.ParseInt` on the exponent) — and with the bivariate part
-  restricted to what is proved: clause 1 in the printers' own notation, clause 2 without ideal.
-  What this omits relative to `C15_full` is exactly `C15Full_remaining` (`BNotations` for `N ≠ {}`,
-  `BAddQuot`). -/
+  `C15_full` of `Props/C15.lean` with the bounds it lacks:
+  * cardinality `q < 2^64` (the `Define` lemmas of C03/C01 are stated for machine-word
+    cardinalities);
+  * at most `2^63` coefficients of a univariate polynomial (`strconv.ParseInt` on the exponent;
+    without it the statement is false: `C15_full_literal_false`);
+  * bivariate additivity in a quotient ring under `BAddSide`: admissible order, no overflow of the
+    weighted degrees, and the MODEL's division fuel (an artifact of the model, see `BAddSide`).
+  Nothing else of `C15_full` is omitted. -/
 
-/-- the proved part of `BPolyRoundTrip` -/
-def BPolyRoundTripP {α : Type} (S : FieldSpec α) : Prop :=
-  ∀ (x y : String) (ord : Order),
+/-- `BPolyRoundTrip` with the side conditions of additivity in a quotient ring -/
+def BPolyRoundTripB {α : Type} (S : FieldSpec α) : Prop :=
+  ∀ (x y : String) (ord : Order) (ideal : Option (List (BPoly α))),
     AdmissibleName x → AdmissibleName y → Unconfusable x y →
     (∀ w, S.ownVar = some w → Unconfusable x w ∧ Unconfusable y w) →
-    (∀ (ideal : Option (List (BPoly α))) f,
-      BValid S { F := S.F, ord := ord, varNames := (x, y), ideal := ideal } f →
+    (∀ f, BValid S { F := S.F, ord := ord, varNames := (x, y), ideal := ideal } f →
+      ∀ N : Notation, N.ok →
       ∃ g, BPoly.parse { F := S.F, ord := ord, varNames := (x, y), ideal := ideal }
-          (BPoly.toStr { F := S.F, ord := ord, varNames := (x, y), ideal := ideal } f) = .ok (some g) ∧
+          (bToStrN N { F := S.F, ord := ord, varNames := (x, y), ideal := ideal } f) = .ok (some g) ∧
         BPoly.equal S.F f g = true) ∧
-    (∀ f₁ f₂, BValid S { F := S.F, ord := ord, varNames := (x, y), ideal := none } f₁ →
-      BValid S { F := S.F, ord := ord, varNames := (x, y), ideal := none } f₂ →
-      ∃ g, BPoly.parse { F := S.F, ord := ord, varNames := (x, y), ideal := none }
-          (BPoly.toStr { F := S.F, ord := ord, varNames := (x, y), ideal := none } f₁ ++ " + " ++
-            BPoly.toStr { F := S.F, ord := ord, varNames := (x, y), ideal := none } f₂) =
+    (∀ f₁ f₂, BValid S { F := S.F, ord := ord, varNames := (x, y), ideal := ideal } f₁ →
+      BValid S { F := S.F, ord := ord, varNames := (x, y), ideal := ideal } f₂ →
+      (ideal ≠ none → BAddSide ord f₁ f₂) →
+      ∃ g, BPoly.parse { F := S.F, ord := ord, varNames := (x, y), ideal := ideal }
+          (BPoly.toStr { F := S.F, ord := ord, varNames := (x, y), ideal := ideal } f₁ ++ " + " ++
+            BPoly.toStr { F := S.F, ord := ord, varNames := (x, y), ideal := ideal } f₂) =
               .ok (some g) ∧
         BPoly.equal S.F g (BPoly.add S.F f₁ f₂) = true)
 
 def FieldRoundTripB {α : Type} (S : FieldSpec α) : Prop :=
-  ElemRoundTrip S ∧ UPolyRoundTripB S ∧ BPolyRoundTripP S
+  ElemRoundTrip S ∧ UPolyRoundTripB S ∧ BPolyRoundTripB S
 
 theorem prime_fieldRoundTripB {p : Nat} (hq : p < 2 ^ 64) (hd : Define.prime p = .ok (.prime p)) :
     FieldRoundTripB (primeSpec p) := by
@@ -217,11 +220,9 @@ theorem prime_fieldRoundTripB {p : Nat} (hq : p < 2 ^ 64) (hd : Define.prime p =
   · intro v mod hv _ hm
     exact ⟨fun f hf hlen N hN => prime_upoly_notation hp h32 hv mod hf hlen N hN,
       fun f₁ f₂ h1 h2 l1 l2 => prime_upoly_additive hp h32 hv mod hm h1 h2 l1 l2⟩
-  · intro x y ord hx hy hxy _
-    refine ⟨fun ideal f hf => ?_, fun f₁ f₂ h1 h2 => ?_⟩
-    · have := prime_bpoly_roundtrip hp h32 hx hy hxy ord ideal hf
-      rwa [bToStrN_default] at this
-    · exact prime_bpoly_additive hp h32 hx hy hxy ord none h1 h2 (fun gs h => by cases h)
+  · intro x y ord ideal hx hy hxy _
+    exact ⟨fun f hf N hN => prime_bpoly_notation hp h32 hx hy hxy ord ideal hf N hN,
+      fun f₁ f₂ h1 h2 hs => prime_bpoly_additive_bounded hp h32 hx hy hxy ord ideal h1 h2 hs⟩
 
 theorem bin_fieldRoundTripB {q n m : Nat} {w : String} (hq : q < 2 ^ 64)
     (hd : Define.bin Gen.dbText q = .ok (.bin n m)) (hw : AdmissibleName w) :
@@ -238,13 +239,11 @@ theorem bin_fieldRoundTripB {q n m : Nat} {w : String} (hq : q < 2 ^ 64)
     have hvw : Unconfusable v w := hun w rfl
     exact ⟨fun f hf hlen N hN => bin_upoly_notation L hL hw hn hv hvw mod hf hlen N hN,
       fun f₁ f₂ k1 k2 l1 l2 => bin_upoly_additive L hL hw hn hv hvw mod hm k1 k2 l1 l2⟩
-  · intro x y ord hx hy hxy hun
+  · intro x y ord ideal hx hy hxy hun
     obtain ⟨hxw, hyw⟩ := hun w rfl
-    refine ⟨fun ideal f hf => ?_, fun f₁ f₂ k1 k2 => ?_⟩
-    · have := bin_bpoly_roundtrip L hL hw hn hx hy hxy hxw hyw ord ideal hf
-      rwa [bToStrN_default] at this
-    · exact bin_bpoly_additive L hL hw hn hx hy hxy hxw hyw ord none k1 k2
-        (fun gs h => by cases h)
+    exact ⟨fun f hf N hN => bin_bpoly_notation L hL hw hn hx hy hxy hxw hyw ord ideal hf N hN,
+      fun f₁ f₂ k1 k2 hs =>
+        bin_bpoly_additive_bounded L hL hw hn hx hy hxy hxw hyw ord ideal k1 k2 hs⟩
 
 theorem ext_fieldRoundTripB {q p n : Nat} {g : List Nat} (hq : q < 2 ^ 64)
     (hd : Define.ext Gen.dbText q = .ok (.ext p n g)) : FieldRoundTripB (extSpec p n g) := by
@@ -263,20 +262,22 @@ theorem ext_fieldRoundTripB {q p n : Nat} {g : List Nat} (hq : q < 2 ^ 64)
     have hva : Unconfusable v "a" := hun "a" rfl
     exact ⟨fun f hf hlen N hN => ext_upoly_notation M hn63 L hL hv hva mod hf hlen N hN,
       fun f₁ f₂ k1 k2 l1 l2 => ext_upoly_additive M hn63 L hL hv hva mod hm k1 k2 l1 l2⟩
-  · intro x y ord hx hy hxy hun
+  · intro x y ord ideal hx hy hxy hun
     obtain ⟨hxw, hyw⟩ := hun "a" rfl
-    refine ⟨fun ideal f hf => ?_, fun f₁ f₂ k1 k2 => ?_⟩
-    · have := ext_bpoly_roundtrip M hn63 L hL hx hy hxy hxw hyw ord ideal hf
-      rwa [bToStrN_default] at this
-    · exact ext_bpoly_additive M hn63 L hL hx hy hxy hxw hyw ord none k1 k2
-        (fun gs h => by cases h)
+    exact ⟨fun f hf N hN => ext_bpoly_notation M hn63 L hL hx hy hxy hxw hyw ord ideal hf N hN,
+      fun f₁ f₂ k1 k2 hs =>
+        ext_bpoly_additive_bounded M hn63 L hL hx hy hxy hxw hyw ord ideal k1 k2 hs⟩
 
-/-- **C15, assembled (bounded, without `C15Full_remaining`).**  Over every field the three `Define`
-    functions of the model return for a cardinality `q < 2^64`, and every admissible renaming of a
-    binary field's variable: element round trip; univariate round trip in EVERY notation and
-    additivity (at most `2^63` coefficients), in every ring and quotient ring; bivariate round
-    trip in the printers' notation for every order and ideal; bivariate additivity without ideal. -/
-theorem C15_full_bounded_partial :
+/-- **C15, assembled and bounded: every clause of `C15_full`.**  Over every field the three
+    `Define` functions of the model return for a cardinality `q < 2^64`, and every admissible
+    renaming of a binary field's variable: element round trip; univariate round trip in EVERY
+    notation and additivity (at most `2^63` coefficients), in every ring and quotient ring;
+    bivariate round trip in EVERY notation for every order and ideal; bivariate additivity for
+    every order, without ideal unconditionally and in a quotient ring under `BAddSide`
+    (admissible order, no overflow of weighted degrees, the model's division fuel).  Relative to
+    the literal `C15_full` (which is false: `C15_full_literal_false`) exactly these bounds are
+    added. -/
+theorem C15_full_bounded :
     (∀ p, p < 2 ^ 64 → Define.prime p = .ok (.prime p) → FieldRoundTripB (primeSpec p)) ∧
     (∀ q n m v, q < 2 ^ 64 → Define.bin Gen.dbText q = .ok (.bin n m) → AdmissibleName v →
       FieldRoundTripB (binSpec n m v)) ∧
